@@ -162,7 +162,7 @@ static void one(const char *fmt, int type, Val v, int ns, int s1, int s2, int is
     char ref[700]; int n = call_ref(ref, sizeof ref, fmt, type, v, ns, s1, s2);
     if (n < 0 || n >= (int)sizeof ref - 1) return;
     n_formats++;
-    size_t dms[5] = { 1, n > 1 ? n - 1 : 1, n ? n : 1, n + 1, 256 }; int ndm = tier ? 5 : 4;
+    size_t dms[8] = { 1, n > 1 ? n - 1 : 1, n ? n : 1, n + 1, n > 3 ? n / 2 : 1, n > 2 ? n - 2 : 1, n > 4 ? n - 4 : 1, 256 }; int ndm = tier ? 8 : 7;
     char vb[32], cs[200];
     for (int entry = 0; entry < NENT; entry++) for (int di = 0; di < (IS_STREAM(entry) ? 1 : ndm); di++) {
         size_t dmax = IS_STREAM(entry) ? 0 : dms[di];
@@ -235,9 +235,9 @@ int main(int argc, char **argv) {
     const char *group = argv[1]; int tier = !strcmp(argv[2], "thorough"); long shard = atol(argv[3]), nsh = atol(argv[4]); long idx = 0;
     /* width / precision menus: the quick tier takes the representatives, the thorough tier every value around the digit-buffer sizes */
     static char WIDB[40][8], PREB[40][8]; const char *WID[40], *PRE[40]; int NW = 0, NP = 0, WSTAR, PSTAR;
-    { static const int qw[] = { 1, 5, 12, 40 }, qp[] = { 0, 1, 5, 12, 40 };
+    { static const int qw[] = { 1, 5, 12, 40, 64 }, qp[] = { 0, 1, 5, 12, 40 };
       static const int tw[] = { 1, 2, 3, 4, 5, 6, 7, 8, 9, 10, 11, 12, 13, 16, 17, 20, 31, 32, 33, 34, 40, 64, 100 }, tp[] = { 0, 1, 2, 3, 4, 5, 6, 7, 8, 9, 10, 11, 12, 15, 16, 17, 18, 20, 31, 32, 33, 40, 64 };
-      WID[NW++] = ""; for (int i = 0; i < (tier ? 23 : 4); i++) { sprintf(WIDB[NW], "%d", tier ? tw[i] : qw[i]); WID[NW] = WIDB[NW]; NW++; } WSTAR = NW; WID[NW++] = "*";
+      WID[NW++] = ""; for (int i = 0; i < (tier ? 23 : 5); i++) { sprintf(WIDB[NW], "%d", tier ? tw[i] : qw[i]); WID[NW] = WIDB[NW]; NW++; } WSTAR = NW; WID[NW++] = "*";
       PRE[NP++] = ""; if (tier) PRE[NP++] = "."; for (int i = 0; i < (tier ? 23 : 5); i++) { sprintf(PREB[NP], ".%d", tier ? tp[i] : qp[i]); PRE[NP] = PREB[NP]; NP++; } PSTAR = NP; PRE[NP++] = ".*"; }
 #define WCLS(wi) ((wi) == 0 ? "none" : (wi) == WSTAR ? "*" : atoi(WID[wi]) > 32 ? "33+" : "1-32")
 #define PCLS(pi) ((pi) == 0 ? "none" : (pi) == PSTAR ? ".*" : atoi(PRE[pi] + 1) == 0 ? ".0" : atoi(PRE[pi] + 1) <= 8 ? ".1-8" : atoi(PRE[pi] + 1) == 9 ? ".9" : ".10+")
